@@ -205,6 +205,7 @@ def units(tier):
     for i in range(0, n, 4):
         yield {"t": "tree", "range": [i, min(n, i + 4)]}
     yield {"t": "direct"}
+    yield {"t": "twice"}
     for name in corpus.CONSTRUCTS:
         yield {"t": "self", "construct": name}
     smax = 3 if tier == "quick" else 4
@@ -331,6 +332,32 @@ def run_tree(unit):
                     if not res["samples"] and psrc != ssrc and "{{" in psrc:
                         res["samples"].append({"pattern": psrc, "subject": ssrc, "typed": typed})
                 res["viol"].extend(v)
+    return res
+
+
+# a named wildcard used twice against subjects whose two occurrences differ as trees but coincide in some TEXT (a string
+# literal spelling the other operand, int vs float vs str spellings, quote styles): consistency is equality of trees.
+# Family added after the seeded change C14-constant-consistency-by-value.
+TWICE_PATTERNS = ["{{x}} == {{x}}", "f({{x}}, {{x}})", "d[{{k}}] = {{k}}", "{{x}} + {{x}}", "[{{x}}, {{x}}]", "{{x}} if {{x}} else 0",
+                  "{{x}} = {{x}}", "{{x}}({{x}})", "f({{x}}, k={{x}})"]
+TWICE_OPERANDS = ["a", "'a'", '"a"', "1", "'1'", "1.0", "'1.0'", "True", "'True'", "None", "'None'", "a.b", "'a.b'", "[a]", "'[a]'", "b'a'",
+                  "f'a'", "-1", "'-1'", "(a)", "a  ", "0x1", "1e0", "1_0", "10"]
+
+
+def run_twice():
+    res = _new()
+    for psrc in TWICE_PATTERNS:
+        for l, r in itertools.product(TWICE_OPERANDS, repeat=2):
+            ssrc = psrc.replace("{{x}}", "\0", 1).replace("{{x}}", r).replace("\0", l).replace("{{k}}", "\0", 1).replace("{{k}}", r).replace("\0", l)
+            try:
+                subject_node(ssrc)
+            except SyntaxError:
+                continue
+            v, want = check_pair(psrc, ssrc)
+            res["n"] += 1
+            if want:
+                res["nontrivial"].append(key_of([psrc, ssrc]))
+            res["viol"].extend(v)
     return res
 
 
@@ -479,6 +506,8 @@ def run_unit(unit):
         return run_tree(unit)
     if t == "direct":
         return run_direct()
+    if t == "twice":
+        return run_twice()
     if t == "self":
         return run_self(unit["construct"])
     return run_search(unit)
